@@ -198,13 +198,10 @@ Definition decode (x : list int) : option hcase :=
   | _ => None
   end.
 
-(* a case: (id, encoded history with observations).  An undecodable case counts as failing. *)
+(* a case: (id, encoded history with observations, or - leading digit 3 - two concurrent calls under
+   a line-granular schedule).  An undecodable case counts as failing. *)
 Definition case := (N * list int)%type.
-Definition agree (c : case) : bool := match decode (snd c) with Some h => agree_h h | None => false end.
-(* ids of the disagreeing cases, as binary numbers, at most 40 per shard (a defect that makes most
-   histories disagree must not blow up the answer) *)
-Definition failing (cs : list case) : list N := firstn 40 (map fst (filter (fun c => negb (agree c)) cs)).
-
+Definition agree_hist (x : list int) : bool := match decode x with Some h => agree_h h | None => false end.
 
 (* short forms for hand-written cases *)
 Definition sn (n : name) : sel := SName n.
@@ -216,6 +213,134 @@ Definition u_ (q : nat) : seen := (q, None).                 (* ... by an unmark
 Definition x_ (q : nat) : seen := (q, Some (Foreign 99)).    (* ... by an object the harness cannot identify *)
 Definition bk (x : seen) : seen2 := (Some x, None).
 Definition ta (x : seen) : seen2 := (None, Some x).
+
+(* ---- line-granular schedules of TWO concurrent calls on the real code: the outcome must be that of
+   SOME sequential order of their blocks (the conclusion of C17_micro_atomic), followed by atomic
+   operations (e.g. the exits) observed step by step *)
+Fixpoint merges {A} (l1 : list A) : list A -> list (list A) :=
+  fix aux (l2 : list A) : list (list A) :=
+  match l1, l2 with
+  | [], _ => [l2]
+  | _, [] => [l1]
+  | x :: l1', y :: l2' => map (cons x) (merges l1' l2) ++ map (cons y) (aux l2')
+  end.
+
+Definition of_st (s : st) : bst :=
+  {| b_shared := shared s;
+     b_priv := fun t => {| p_tls := tls s t; p_ctx := ctx s t; p_reg := Named 0; p_out := [] |} |}.
+
+Fixpoint check1 (tenalg : bool) (ths : list tid) (s : st) (es : list (op * obs * list seen)) : bool :=
+  match es with
+  | [] => true
+  | (o, ob, xs) :: es' =>
+      let (s', ob') := step fixed_rules (cfg_of tenalg) s o in
+      obs_eqb ob' ob && all_seen tenalg s' ths xs && check1 tenalg ths s' es'
+  end.
+
+Definition outs_eqb (l : list obs) (o : obs) : bool :=
+  match l with [x] => obs_eqb x o | _ => false end.
+
+(* manager, threads holding a selection at the start, observers, atomic set-up history, the two
+   concurrent operations (of different threads) with their outcomes, what everybody saw when both had
+   returned, atomic follow-up *)
+Definition mcase := (bool * list (tid * inst) * list tid * list op * (op * obs) * (op * obs) * list seen
+                     * list (op * obs * list seen))%type.
+
+Definition agree_m (c : mcase) : bool :=
+  let '(tenalg, own0, ths, setup, (oa, ra), (ob, rb), xs, post) := c in
+  let cf := cfg_of tenalg in
+  let b0 := of_st (run fixed_rules cf (init (own_of own0)) setup) in
+  negb (Nat.eqb (thr oa) (thr ob)) &&
+  existsb (fun h =>
+             let b := arun fixed_rules cf b0 h in
+             outs_eqb (p_out (b_priv b (thr oa))) ra && outs_eqb (p_out (b_priv b (thr ob))) rb &&
+             all_seen tenalg (to_st b) ths xs && check1 tenalg ths (to_st b) post)
+          (merges (flat [oa]) (flat [ob])).
+
+(* transport: digits  3, tenalg, nthreads, main_holds, nsetup, setup ops (5 digits each), op A (5), outcome A,
+   op B (5), outcome B, seen * nthreads, npost, then per follow-up step: op (5), outcome, seen * nthreads;
+   op digits as in the history format with manager = tenalg *)
+Definition dec_op (k t a b c : nat) : op :=
+  match (if 4 <=? k then k - 4 else k) with
+  | 0 => Set_ t (dec_sel a b) (dec_bool c)
+  | 1 => Enter t (dec_sel a b) (dec_bool c)
+  | _ => Exit_ t (dec_bool a)
+  end.
+
+Fixpoint dec_ops (n : nat) (l : list nat) : option (list op * list nat) :=
+  match n with
+  | O => Some ([], l)
+  | S n' => match l with
+            | k :: t :: a :: b :: c :: l' =>
+                match dec_ops n' l' with Some (os, r) => Some (dec_op k t a b c :: os, r) | None => None end
+            | _ => None
+            end
+  end.
+
+Fixpoint dec_seen1 (n : nat) (l : list nat) : option (list seen * list nat) :=
+  match n with
+  | O => Some ([], l)
+  | S n' => match l with
+            | q :: d :: l' => match dec_seen1 n' l' with Some (xs, r) => Some (dec_one q d :: xs, r) | None => None end
+            | _ => None
+            end
+  end.
+
+Fixpoint dec_post (nth n : nat) (l : list nat) : option (list (op * obs * list seen)) :=
+  match n with
+  | O => match l with [] => Some [] | _ => None end
+  | S n' => match l with
+            | k :: t :: a :: b :: c :: o :: l' =>
+                match dec_seen1 nth l' with
+                | Some (xs, r) => match dec_post nth n' r with
+                                  | Some es => Some ((dec_op k t a b c, dec_out o, xs) :: es) | None => None end
+                | None => None
+                end
+            | _ => None
+            end
+  end.
+
+Definition decode_m (l : list nat) : option mcase :=
+  match l with
+  | ta :: nth :: own :: ns :: l1 =>
+      match dec_ops ns l1 with
+      | Some (setup, ka :: ta' :: aa :: ba :: ca :: ra :: kb :: tb :: ab :: bb :: cb :: rb :: l2) =>
+          match dec_seen1 nth l2 with
+          | Some (xs, np :: l3) =>
+              match dec_post nth np l3 with
+              | Some post => Some (dec_bool ta, if dec_bool own then [(0, Named 0)] else [], seq 0 nth, setup,
+                                   (dec_op ka ta' aa ba ca, dec_out ra), (dec_op kb tb ab bb cb, dec_out rb), xs, post)
+              | None => None
+              end
+          | _ => None
+          end
+      | _ => None
+      end
+  | _ => None
+  end.
+
+
+(* the anomaly of C17_micro_enter_atomic_refuted is accepted (it IS an order of blocks), the same
+   observations with a wrong final answer are not *)
+Example micro_case_example :
+  let c x y := (false, [(0, Named 0)], [0;1;2;3], [],
+                (Enter 1 (sn 1) false, ODone), (Set_ 2 (sn 2) false, ODone),
+                [n_ 0 0; n_ 1 1; n_ 2 2; n_ 1 1],
+                [(Exit_ 1 false, ODone, [n_ 0 0; x; n_ 2 2; y])]) in
+  agree_m (c (n_ 0 0) (n_ 0 0)) = true /\    (* read, other thread's set_backend, write: the stale value comes back *)
+  agree_m (c (n_ 2 2) (n_ 2 2)) = true /\    (* set_backend first, then the whole entry *)
+  agree_m (c (n_ 0 0) (n_ 1 1)) = false.
+Proof. vm_compute. repeat split. Qed.
+
+Definition agree (c : case) : bool :=
+  match digits (snd c) with
+  | 3 :: l => match decode_m l with Some m => agree_m m | None => false end
+  | _ => agree_hist (snd c)
+  end.
+
+(* ids of the disagreeing cases, as binary numbers, at most 40 per shard (a defect that makes most
+   histories disagree must not blow up the answer) *)
+Definition failing (cs : list case) : list N := firstn 40 (map fst (filter (fun c => negb (agree c)) cs)).
 
 (* the decoder and the comparator are live: a history in transport format decodes to the expected
    structure, agrees, and stops agreeing when one observation is altered *)
@@ -235,5 +360,9 @@ Example decode_example :
   agree (0%N, pack (ds ++ [0])) = false /\
   agree (0%N, pack ds2) = true /\
   agree (0%N, pack ds2') = false /\
-  failing [(7%N, pack ds); (8%N, pack ds'); (9%N, pack ds2')] = [8%N; 9%N].
+  failing [(7%N, pack ds); (8%N, pack ds'); (9%N, pack ds2')] = [8%N; 9%N] /\
+  (* two concurrent calls (leading digit 3): thread 3 holds Obj 3 locally; Enter 1 (foreign object) || Enter 2 (unknown name),
+     both rejected; nobody's view changed; altering the last observation is noticed *)
+  agree (1%N, pack [3;0;4;1; 1; 0;3;1;3;1; 1;1;2;0;0; 1; 1;2;0;5;0; 1; 0;2; 0;2; 0;2; 2;11; 0]) = true /\
+  agree (1%N, pack [3;0;4;1; 1; 0;3;1;3;1; 1;1;2;0;0; 1; 1;2;0;5;0; 1; 0;2; 0;2; 0;2; 2;10; 0]) = false.
 Proof. vm_compute. repeat split. Qed.
